@@ -1,6 +1,7 @@
 // C17: objects live while referenced or busy and are finalised exactly once (run mostly under ASan)
 #include "h.h"
 #include <fcntl.h>
+#include <Block.h>
 
 #if defined(DSIM_ASAN)
 extern int __sanitizer_get_ownership(const volatile void *p);
@@ -385,9 +386,75 @@ static void scen_data(void) {
 	dispatch_release(L.root);
 }
 
+/* ---- scenario 6: a queue that a block object is running on while another thread waits for the block ----
+ * (dispatch_block_wait and the end of the block's execution both try to take over the references the block object
+ * holds on its queue) */
+static struct { dispatch_block_t b; sim_event started, finish; int waited; } BK;
+static void *blockq_client(void *arg) {
+	int c = (int)(intptr_t)arg;
+	sim_event_wait(&L.go, LIVENESS_NS);
+	if (c == 0) {
+		L.items_submitted++;
+		if (L.nested) dispatch_barrier_async(L.q, BK.b); else dispatch_async(L.q, BK.b);
+	} else if (c == 1) {
+		sim_event_wait(&BK.started, 2 * MSEC);
+		sim_event_signal(&BK.finish);                      // the body returns ...
+		for (int k = (int)(RC.seed >> 36 & 15); k > 0; k--) sim_point();
+		if (L.arm_rel) sim_arm_stall((uint32_t)L.arm_rel, L.arm_code);
+		// ... while this thread waits for the block object
+		long r = dispatch_block_wait(BK.b, L.susp ? DISPATCH_TIME_FOREVER : dispatch_time(DISPATCH_TIME_NOW, 50 * (int64_t)MSEC));
+		BK.waited = 1;
+		if (r == 0 && L.items_ended < L.items_submitted) h_viol("block-wait-early", "dispatch_block_wait returned 0 before the block's execution had finished");
+	} else {
+		for (int i = 0; i < L.nitems_per; i++) { dispatch_retain(L.q); sim_point(); dispatch_release(L.q); }
+	}
+	// the waiter keeps the queue until it has waited; everybody else lets go whenever
+	release_obj("client");
+	L.done++; h_progress();
+	return NULL;
+}
+static void scen_blockq(void) {
+	memset(&BK, 0, sizeof BK);
+	if (L.nclients < 2) L.nclients = 2;
+	L.tq_kind = (int)g_n(2);
+	L.root = dispatch_queue_create("c17-broot", L.tq_kind ? DISPATCH_QUEUE_CONCURRENT : NULL);
+	dispatch_queue_set_specific(L.root, &L.mark, &L.mark, NULL);
+	dispatch_set_context(L.root, &L.mark); dispatch_set_finalizer_f(L.root, finalizer_root);
+	L.q = dispatch_queue_create_with_target("c17-bq", g_chance(1, 2) ? DISPATCH_QUEUE_CONCURRENT : NULL, L.root);
+	L.obj = L.q;
+	dispatch_set_context(L.q, &L.ctx1); dispatch_set_finalizer_f(L.q, finalizer_obj);
+	sim_watch(L.q, 128);
+	for (int i = 1; i < L.nclients; i++) dispatch_retain(L.q);
+	dispatch_release(L.root);
+	BK.b = dispatch_block_create(0, ^{
+		L.items_started++;
+		sim_event_signal(&BK.started);
+		sim_event_wait(&BK.finish, 1 * MSEC);
+		sim_point();
+		L.items_ended++; L.last_item_end = h_stamp();
+		h_progress();
+	});
+	sim_watch(BK.b, 192);
+	sim_thread *th[MAXC];
+	for (int i = 0; i < L.nclients; i++) th[i] = sim_spawn(blockq_client, (void *)(intptr_t)i, "c17-client");
+	sim_event_signal(&L.go);
+	h_end_fault_phase(th, L.nclients, 5 * NSEC);
+	if (h_wait_until(quiesced, NULL, LIVENESS_NS)) {
+		char b[200]; snprintf(b, sizeof b, "clients done %d/%d, block body ran %d/%d, releases %d, finalizer ran %d time(s)", L.done, L.nclients, L.items_ended, L.items_submitted, L.releases_returned, L.f_obj.count);
+		h_stuck("finalizer-missing", b);
+	}
+	h_settle(50 * MSEC);
+	if (L.f_obj.count != 1) h_viol("finalizer-twice", "finalizer count %d", L.f_obj.count);
+	if (L.f_obj.stamp < L.last_item_end) h_viol("finalizer-early", "the queue's finalizer ran before the block running on it had finished");
+	{ uint64_t t0 = sim_now(); while (!L.f_root.count && sim_now() - t0 < LIVENESS_NS) sim_sleep_ns(100 * MSEC); }
+	if (L.f_root.count != 1) h_viol("finalizer-missing", "the target queue's finalizer ran %d times after everything targeting it was gone", L.f_root.count);
+	if (OWNED(L.obj)) h_viol("not-freed", "the queue's memory is still allocated after its finalizer ran and every reference was dropped");
+	Block_release(BK.b);
+}
+
 static void c17_run(void) {
 	memset(&L, 0, sizeof L);
-	{ int r = (int)g_n(20); L.scenario = r < 9 ? 0 : r < 12 ? 1 : r < 15 ? 2 : r < 17 ? 3 : r < 19 ? 4 : 5; }
+	{ int r = (int)g_n(22); L.scenario = r < 9 ? 0 : r < 12 ? 1 : r < 15 ? 2 : r < 17 ? 3 : r < 19 ? 4 : r < 20 ? 5 : 6; }
 	L.nclients = g_range(2, MAXC); L.nitems_per = g_range(0, 4);
 	L.susp = g_chance(1, 2); L.nested = g_chance(1, 2); L.last_from_item = g_chance(1, 3); L.set_ctx_late = g_chance(1, 4);
 	if (L.scenario != 0) { L.last_from_item = 0; L.set_ctx_late = 0; }
@@ -396,11 +463,12 @@ static void c17_run(void) {
 	if (g_chance(2, 3)) { L.arm_rel = g_range(1, 70); L.arm_code = g_range(1, 4); }
 	if (L.scenario == 0 && g_chance(1, 3)) { L.last_from_item = 1; if (L.nitems_per < 2) L.nitems_per = 2; }
 	static const char *const sn[] = { "queue (context, finalizer, specific keys) targeting a queue its creator has already released", "group released while non-empty", "source released with events in flight",
-		"semaphore shared by signallers and waiters", "I/O channel released with a read in flight", "data objects built on one buffer released from several threads" };
+		"semaphore shared by signallers and waiters", "I/O channel released with a read in flight", "data objects built on one buffer released from several threads",
+		"queue with a block object running on it while another thread is in dispatch_block_wait" };
 	h_sample("%s; %d clients x %d items%s%s%s%s\n", sn[L.scenario], L.nclients, L.nitems_per, L.susp ? ", suspend/resume" : "", L.nested ? (L.scenario == 2 ? ", timer" : L.scenario == 4 ? ", close(STOP)" : ", nested submission") : "",
 		L.last_from_item ? ", one reference dropped from inside the last item" : L.no_cancel ? ", never cancelled" : "", L.set_ctx_late ? ", context replaced before the last release" : "");
 	h_announce();
-	switch (L.scenario) { case 0: scen_queue(); break; case 1: scen_group(); break; case 2: scen_source(); break; case 3: scen_sema(); break; case 4: scen_io(); break; default: scen_data(); }
+	switch (L.scenario) { case 0: scen_queue(); break; case 1: scen_group(); break; case 2: scen_source(); break; case 3: scen_sema(); break; case 4: scen_io(); break; case 5: scen_data(); break; default: scen_blockq(); }
 	RES.counters[0] = L.items_ended; RES.counters[1] = L.releases_returned; RES.counters[2] = L.f_obj.count; RES.counters[3 + L.scenario] = 1;   /* 3..8 */
 	RES.nontrivial = L.f_obj.count == 1 && (sim_st.watched_preempts > 0 || sim_st.fired[K_STALL] > 0);
 }
@@ -413,6 +481,6 @@ static void c17_tune(sim_knobs *k, unsigned cfg, uint64_t *g) {
 	else if (r < 60) k->strategy = STRAT_PCT;
 	k->alloc_den = 0;
 }
-static const char *const c17_names[] = { "items_or_handler_invocations", "references_dropped", "finalizers_run", "queue_runs", "group_runs", "source_runs", "semaphore_runs", "io_channel_runs", "data_runs", NULL };
+static const char *const c17_names[] = { "items_or_handler_invocations", "references_dropped", "finalizers_run", "queue_runs", "group_runs", "source_runs", "semaphore_runs", "io_channel_runs", "data_runs", "block_wait_runs", NULL };
 const prop_def prop_C17 = { "C17", c17_tune, c17_run, c17_names,
 	"non-trivial: the object's finalizer ran and a pre-emption or injected stall was taken inside the object's atomics; distinct = distinct schedule signatures among those" };
